@@ -86,10 +86,10 @@ SKIP = {
             "np.matrix -> ndarray: representation only",
     },
 }
-# the only exception handler accepted (retry with another seed when ARPACK does not converge): not translated, the oracle
+# the only exception handler accepted (when ARPACK does not converge the SAME draw is measured with the dense solver and scaled as in the try body): not translated, the oracle
 # spectral_radius is assumed to RETURN (Section variable); a change of this text is a rejection
-PINNED_HANDLER = ("except ArpackNoConvergence:\n    if seed is None:\n        seed = rg.integers(1 << 16)\n    else:\n"
-                  "        seed += 1\n    w = w_init(*shape, seed=seed, **kwargs)")
+PINNED_HANDLER = ("except ArpackNoConvergence:\n    current_sr = spectral_radius(w.toarray())\n    if not -_epsilon < current_sr < _epsilon:\n"
+                  "        w *= sr / current_sr\n    convergence = True")
 # expression-level identities on a matrix / vector (format conversions and dtype casts)
 IDENT_METHODS = {"asformat", "astype", "toarray", "tocsr", "tocsc", "tocoo", "todense", "copy"}
 
